@@ -43,7 +43,7 @@ def q_alphabet(P, T, VK):
 def q_applicable(st, op):
     live, vl = st
     k = op[0]
-    if k in ("mk", "mx"):
+    if k in ("mk", "mx", "mr"):
         return op[1] < len(live)
     if k == "vx":
         return True
@@ -72,7 +72,7 @@ def q_shape_step(st, op):
     live, vl = st
     live = list(live)
     k = op[0]
-    if k in ("mk", "mc", "dc"):
+    if k in ("mk", "mr", "mc", "dc"):
         live[op[1]] = True
     elif k == "dr":
         live[op[1]] = False
@@ -138,25 +138,30 @@ def o_case(kind, P, seq, lsan=False):
 
 class C18(Check):
     prop = "C18"
-    vfiles = ["Properties/Properties_C18.v", "Extract/Extract_Own.v"]
+    vfiles = ["Properties/Properties_C18.v", "Tie/Tie_C18.v", "Extract/Extract_Own.v"]
     cpp = dict(name="own", driver_src="harness/own_driver.cpp", repo_srcs=["src/env/get.cpp"])
     ocaml = dict(name="own", extracted="own_model.ml", glue=("glue_base.ml",))
     corpus = "C18.txt"
     design_ref = "DESIGN.md section 6, C18 — owning wrappers"
     technique = ("Coq proof of ownership invariants over executable models of quaint_ptr.hpp and optional.hpp (counting owners per "
-                 "object, induction over arbitrary operation lists; optional by refinement to plain value semantics) + "
+                 "object, induction over arbitrary operation lists; optional by refinement to plain value semantics); the nine members of optional<T> are "
+                 "re-translated from the source by clang on every run and proved equal to the model's member functions (Tie_C18) + "
                  "extraction-based differential test against the C++ with instrumented payload types under ASan/UBSan/LSan")
-    level_text = ("Twenty-seven theorems proved in Coq for ALL operation lists: every object made through make_quaint is destroyed at most "
+    level_text = ("Thirty theorems proved in Coq for ALL operation lists: every object made through make_quaint is destroyed at most "
                   "once and only by the destructor of its creation type, is alive iff exactly one pointer (pool variable or vector "
                   "element) owns it, moved-from and reset pointers are empty, vector reallocation destroys nothing, and after the "
                   "last owner is gone every object has been destroyed exactly once; optional<T> refines plain value semantics "
                   "(deep copy, no two optionals share storage, assigning an empty optional empties the target, reading an empty one "
                   "raises, writing one never changes another, no T is leaked). The models follow quaint_ptr.hpp/optional.hpp member "
-                  "by member and are tied to /repo by running the extracted models and the real classes (ASan/UBSan build of the "
+                  "by member. optional<T> is tied by translation: gen/tr_optional.py re-reads its nine user-declared members from clang's AST on every run "
+                  "into the little language of Own/OptLang.v and Tie_C18 (7 theorems) proves, for every heap, object and argument, that running them gives "
+                  "exactly ctor_copy, ctor_val, assign_opt, assign_val, opt_bool and opt_read of the model (an unrecognised construct is OUnknown: stuck). "
+                  "Both classes are tied to /repo by running the extracted models and the real classes (ASan/UBSan build of the "
                   "working tree, id-stamped payload types A/B/C with per-type constructor/destructor counters) on the same "
                   "exhaustive + random operation sequences and diffing the state after every step; an oracle built from the "
                   "extracted spec checks judges every differing observation")
-    level_note = ("trusted: Coq kernel, ExtrOcamlBasic extraction, OCaml compiler, the differential harness. ASSUMED, not verified: "
+    level_note = ("trusted: Coq kernel, ExtrOcamlBasic extraction, OCaml compiler, the differential harness, gen/tr_optional.py's reading of the clang AST and "
+                  "the meaning Own/OptLang.v gives to `data_ = std::make_unique<T>(x)`, `data_.reset()`, `*other`, `std::move(data)`. ASSUMED, not verified: "
                   "exactly-once release and null-after-move in the real program are std::unique_ptr's (and std::function's move), "
                   "std::vector's reallocation is move-construct-all + destroy-all, std::make_unique allocates a fresh T — the models "
                   "write these library semantics out. What nitro adds — the deleter lambda casting back to the creation type, "
@@ -171,7 +176,7 @@ class C18(Check):
                   "ONE read: an empty optional raises, an engaged one yields its value and is left unchanged — the unchanged header "
                   "never moves out; the driver only looks at the value through the returned reference, and the transient copies that "
                   "make the temporaries are not modelled). Leaks: allocator bytes are compared before/after every case and LeakSanitizer confirms any growth.")
-    rule = ("quaint_ptr: every applicable operation sequence of depth 4 on a pool of 2 pointers and of depth 3 on a pool of 3 (thorough: "
+    rule = ("quaint_ptr: RE-ENTRANT payloads (the destructor calls reset() on / assigns nullptr to the pointer that owns the object, while that pointer is being reset / assigned / move-assigned): every applicable sequence of depth 2 (thorough 3) after the creation on a pool of 2 plus random histories of length <= 16 on a pool of 3; passive payloads: every applicable operation sequence of depth 4 on a pool of 2 pointers and of depth 3 on a pool of 3 (thorough: "
             "also depth 4 on a pool of 3 and depth 4 on a pool of 2 with 3 types) "
             "over {make<T>, make<T> whose constructor throws (assigned, emplaced, pushed into the vector), default-construct, move-construct, move-assign (incl. self), reset, p = nullptr (also on a vector "
             "element), std::swap (incl. with itself), destroy, "
@@ -201,6 +206,32 @@ class C18(Check):
                 yield q_case(3, seq), "q-exh4-pool3"
             for seq in q_exhaustive(2, 3, 2, 4):
                 yield q_case(2, seq), "q-exh4-pool2-3types"
+        # re-entrant payloads (the destructor calls reset() on / assigns nullptr to the pointer that owns the object):
+        # every history of depth 3 after the creation, then random longer ones
+        re_ops = [o for o in q_alphabet(2, 1, 1) if o[0] in ("mk", "mc", "ma", "rs", "dr", "vp", "vt", "an", "sw", "dc", "vc")]
+        re_ops += [("mr", i, t, m) for i in range(2) for t in (0, 2) for m in (1, 2, 3)]
+        for first in [("mr", i, t, m) for i in range(2) for t in range(3) for m in (1, 2, 3)]:
+            def rec(st, d, acc):
+                if d == 0:
+                    yield acc
+                    return
+                for o in re_ops:
+                    if q_applicable(st, o):
+                        yield from rec(q_shape_step(st, o), d - 1, acc + [o])
+            for seq in rec(q_shape_step(((False,) * 2, 0), first), 2 if quick else 3, [first]):
+                yield q_case(2, seq), "q-reentrant-exh"
+        alpha_re = q_alphabet(3, 3, 3) + [("mr", i, t, m) for i in range(3) for t in range(3) for m in (1, 2, 3)] * 2
+        for n in range(1500 if quick else 20000):
+            st = ((False,) * 3, 0)
+            seq = []
+            for _ in range(rng.randint(4, 16)):
+                cand = [o for o in alpha_re if q_applicable(st, o)]
+                if any(st[0]) and rng.random() < 0.7:
+                    cand = [o for o in cand if o[0] not in ("mk", "mx", "vx")] or cand
+                o = rng.choice(cand)
+                seq.append(o)
+                st = q_shape_step(st, o)
+            yield q_case(3, seq), "q-reentrant-rand"
         oa = o_alphabet(2, ["", "a"], full=False)
         for seq in itertools.product(oa, repeat=3):
             yield o_case("c", 2, list(seq)), "o-exh3-counting"
